@@ -54,7 +54,7 @@ INFO = {
     "explanation": "All 111 functions of include/ufw/binary-format.h (header-only, compiled with the real "
                    "build's preprocessor configuration) are executed symbolically. Per width one instance "
                    "runs, for each of {u,s,(f)} x {n,b,l}: bf_set_* on a 32-octet array with arbitrary "
-                   "contents at array+8+off (off 0..7 symbolic) with a fully symbolic argument (all 2^16/2^32/"
+                   "contents at array+8+off (every off 0..7, case-split so each call sees a constant pointer) with a fully symbolic argument (all 2^16/2^32/"
                    "2^64 argument values incl. bits above the width and every float bit pattern), asserting "
                    "the returned pointer, every field octet against the lane specification (big: most "
                    "significant first, little: least significant first, native = host order) and every other "
@@ -68,12 +68,14 @@ INFO = {
     "bounds": {
         "quick": {"value": "full argument width (complete)", "alignment_offset": "0..7 (complete)",
                   "memory": "32-octet array, arbitrary contents; record: 12 fields / 57 octets"},
-        "thorough": {"value": "complete", "alignment_offset": "0..7", "memory": "as quick (the check is "
-                     "already complete in its parameters; thorough re-runs it with a second SAT back end)"},
+        "thorough": {"value": "complete", "alignment_offset": "0..7", "memory": "as quick (the check is already "
+                     "complete in its parameters); thorough adds all codec/record instances for the portable "
+                     "(non-builtin) byte-swap branch and re-decides the built configuration with minisat2"},
     },
     "outside_bounds": ["big-endian hosts and 16-bit-byte hosts (SYSTEM_ENDIANNESS_BIG / UFW_BITS_PER_BYTE == 16 "
                        "branches are not compiled; native order is checked as little endian)",
-                       "the non-builtin branch of bf_swap16/32/64 (the build defines UFW_USE_BUILTIN_SWAP)",
+                       "quick tier: codecs on top of the non-builtin branch of bf_swap16/32/64 (the swap functions "
+                       "themselves are checked in both branches in both tiers)",
                        "stray writes further than 8 octets before / 9 octets behind the field are caught only "
                        "as array-bounds violations, not as frame violations",
                        "value of the upper bits of bf_swap24/40/48/56 results for arguments wider than the "
@@ -94,21 +96,30 @@ def instances(tier):
         extra = {"C15_TABLE_MISMATCH": None}
         desc = "function table mismatch: " + bad
     enc = [HDR, "include/ufw/bit-operations.h"]
-    common = dict(default_unwind=MEMLOOP, no_models=True, encoded_units=enc, desc=desc, timeout=600)
+    common = dict(default_unwind=MEMLOOP, no_models=True, object_bits=12, encoded_units=enc, desc=desc, timeout=600)
     out = []
-    backends = ["cadical"] if tier == "quick" else ["cadical", "minisat2"]
-    for be in backends:
-        sfx = "" if be == "cadical" else "_" + be
-        for w in WIDTHS:
-            out.append(mk("c15_codec_w%d%s" % (w, sfx), "C15/c15.c", [],
-                          dict(extra, MODE_CODEC=None, C15_W=w), backend=be, **common))
-        out.append(mk("c15_swap_range" + sfx, "C15/c15.c", [], dict(extra, MODE_SWAPRANGE=None),
-                      backend=be, **common))
-        out.append(mk("c15_record" + sfx, "C15/c15.c", [], dict(extra, MODE_RECORD=None),
-                      backend=be, **dict(common, default_unwind=RECLOOP)))
+
+    def family(sfx, backend, cflags, only_swap=False):
+        kw = dict(common, backend=backend, cflags=cflags)
+        if not only_swap:
+            for w in WIDTHS:
+                out.append(mk("c15_codec_w%d%s" % (w, sfx), "C15/c15.c", [],
+                              dict(extra, MODE_CODEC=None, C15_W=w), **kw))
+            out.append(mk("c15_record" + sfx, "C15/c15.c", [], dict(extra, MODE_RECORD=None),
+                          **dict(kw, default_unwind=RECLOOP)))
+        out.append(mk("c15_swap_range" + sfx, "C15/c15.c", [], dict(extra, MODE_SWAPRANGE=None), **kw))
+
+    # the configuration the repository builds (compiler byte-swap builtins)
+    family("", "cadical", [])
+    # the portable shift-and-mask branch of bf_swap16/32/64 (used by every b/l codec on this host)
+    family("_portable", "cadical", PORTABLE, only_swap=(tier == "quick"))
+    if tier != "quick":
+        # same obligations decided by a second SAT back end
+        family("_minisat2", "minisat2", [])
     return out
 
 
+PORTABLE = ["-UUFW_USE_BUILTIN_SWAP"]
 # loop bounds (iterations + 1): array sweeps in the harness only; the library code is loop-free
 MEMLOOP = 8 + 7 + 8 + 9 + 1 + 1
 RECLOOP = 8 + 7 + 57 + 9 + 1 + 1
